@@ -1,6 +1,20 @@
+"""C03 - tile grids tile the plane: contracts on mapproxy.grid (also used by C01, C02, C04, C16)."""
 from pyvc.api import contract, loop, ghost, lemma
 from . import shared_grid  # noqa
 G = 'mapproxy.grid:'
+
+# exact (real-arithmetic) edges of tile (x, y, z) of grid g -- the oracle every tile_bbox user is held to
+ghost('tb_x0', ['g', 'x', 'z'], "g.bbox[0] + x * g.resolutions[z] * g.tile_size[0]")
+ghost('tb_x1', ['g', 'x', 'z'], "g.bbox[0] + (x + 1) * g.resolutions[z] * g.tile_size[0]")
+ghost('tb_y0', ['g', 'y', 'z'], """(g.bbox[3] - (y + 1) * g.resolutions[z] * g.tile_size[1]) if g.flipped_y_axis
+                                   else (g.bbox[1] + y * g.resolutions[z] * g.tile_size[1])""")
+ghost('tb_y1', ['g', 'y', 'z'], """(g.bbox[3] - y * g.resolutions[z] * g.tile_size[1]) if g.flipped_y_axis
+                                   else (g.bbox[1] + (y + 1) * g.resolutions[z] * g.tile_size[1])""")
+
+# exact point -> tile index functions (the oracle for tile())
+ghost('col_of', ['g', 'x', 'z'], "floor((x - g.bbox[0]) / (g.resolutions[z] * g.tile_size[0]))")
+ghost('row_of', ['g', 'y', 'z'], """floor((g.bbox[3] - y) / (g.resolutions[z] * g.tile_size[1])) if g.flipped_y_axis
+                                    else floor((y - g.bbox[1]) / (g.resolutions[z] * g.tile_size[1]))""")
 
 contract(G + 'TileGrid.flip_tile_coord', props=['C03', 'C02'],
          types=dict(tile_coord='tuple[int,int,int]'), returns='tuple[int,int,int]',
@@ -11,16 +25,17 @@ contract(G + 'TileGrid.flip_tile_coord', props=['C03', 'C02'],
                   'implies(0 <= tile_coord[1] < self.grid_sizes[tile_coord[2]][1], 0 <= result[1] < self.grid_sizes[tile_coord[2]][1])'],
          must_fail='result[1] == tile_coord[1]')
 
+lemma('flip_involution', ['C03', 'C02'], doc='flip(flip(t)) == t for every grid height',
+      fn=lambda z3: ([], z3.ForAll([z3.Int('gh'), z3.Int('y')], z3.Int('gh') - 1 - (z3.Int('gh') - 1 - z3.Int('y')) == z3.Int('y'))))
+
 contract(G + 'TileGrid.tile_bbox', props=['C03', 'C01', 'C02', 'C04'],
          types=dict(tile_coord='tuple[int,int,int]', limit='bool'), returns='tuple[real,real,real,real]',
          requires=['grid_wf(self)', 'valid_level(self, tile_coord[2])', 'limit == False'],
          ensures=[
-             'abs(result[0] - (self.bbox[0] + tile_coord[0] * self.resolutions[tile_coord[2]] * self.tile_size[0])) <= 1e-12',
-             'abs(result[2] - (self.bbox[0] + (tile_coord[0] + 1) * self.resolutions[tile_coord[2]] * self.tile_size[0])) <= 1e-12',
-             'implies(not self.flipped_y_axis, abs(result[1] - (self.bbox[1] + tile_coord[1] * self.resolutions[tile_coord[2]] * self.tile_size[1])) <= 1e-12)',
-             'implies(not self.flipped_y_axis, abs(result[3] - (self.bbox[1] + (tile_coord[1] + 1) * self.resolutions[tile_coord[2]] * self.tile_size[1])) <= 1e-12)',
-             'implies(self.flipped_y_axis, abs(result[3] - (self.bbox[3] - tile_coord[1] * self.resolutions[tile_coord[2]] * self.tile_size[1])) <= 1e-12)',
-             'implies(self.flipped_y_axis, abs(result[1] - (self.bbox[3] - (tile_coord[1] + 1) * self.resolutions[tile_coord[2]] * self.tile_size[1])) <= 1e-12)',
+             'abs(result[0] - tb_x0(self, tile_coord[0], tile_coord[2])) <= 1e-12',
+             'abs(result[2] - tb_x1(self, tile_coord[0], tile_coord[2])) <= 2e-12',
+             'abs(result[1] - tb_y0(self, tile_coord[1], tile_coord[2])) <= 2e-12',
+             'abs(result[3] - tb_y1(self, tile_coord[1], tile_coord[2])) <= 2e-12',
          ],
          must_fail='result[0] == self.bbox[0]')
 
@@ -28,14 +43,11 @@ contract(G + 'TileGrid.tile', props=['C03'],
          types=dict(x='real', y='real', level='int'), returns='tuple[int,int,int]',
          requires=['grid_wf(self)', 'valid_level(self, level)'],
          ensures=[
-             'result[2] == level',
+             'result[0] == col_of(self, x, level) and result[1] == row_of(self, y, level) and result[2] == level',
              # the tile found for a point contains that point (half open, exact arithmetic)
-             'self.bbox[0] + result[0] * self.resolutions[level] * self.tile_size[0] <= x',
-             'x < self.bbox[0] + (result[0] + 1) * self.resolutions[level] * self.tile_size[0]',
-             'implies(not self.flipped_y_axis, self.bbox[1] + result[1] * self.resolutions[level] * self.tile_size[1] <= y)',
-             'implies(not self.flipped_y_axis, y < self.bbox[1] + (result[1] + 1) * self.resolutions[level] * self.tile_size[1])',
-             'implies(self.flipped_y_axis, self.bbox[3] - result[1] * self.resolutions[level] * self.tile_size[1] >= y)',
-             'implies(self.flipped_y_axis, y > self.bbox[3] - (result[1] + 1) * self.resolutions[level] * self.tile_size[1])',
+             'tb_x0(self, result[0], level) <= x and x < tb_x1(self, result[0], level)',
+             'implies(not self.flipped_y_axis, tb_y0(self, result[1], level) <= y and y < tb_y1(self, result[1], level))',
+             'implies(self.flipped_y_axis, tb_y0(self, result[1], level) < y and y <= tb_y1(self, result[1], level))',
          ],
          must_fail='result[0] == 0')
 
@@ -48,3 +60,114 @@ contract(G + 'TileGrid.limit_tile', props=['C16', 'C03', 'C09'],
                      and 0 <= tile_coord[1] < self.grid_sizes[tile_coord[2]][1])""",
              'implies(result is not None, result == tile_coord)'],
          must_fail='result is None')
+
+contract('mapproxy.srs:merge_bbox', props=['C03'],
+         types=dict(bbox1='tuple[real,real,real,real]', bbox2='tuple[real,real,real,real]'),
+         returns='tuple[real,real,real,real]',
+         ensures=['result[0] == min(bbox1[0], bbox2[0]) and result[1] == min(bbox1[1], bbox2[1])',
+                  'result[2] == max(bbox1[2], bbox2[2]) and result[3] == max(bbox1[3], bbox2[3])'],
+         must_fail='result[0] == bbox1[0]')
+
+contract(G + 'TileGrid._tiles_bbox', props=['C03', 'C01', 'C04'],
+         types=dict(tiles='list[tuple[int,int,int]]'), returns='tuple[real,real,real,real]',
+         requires=['grid_wf(self)', 'len(tiles) >= 1', 'valid_level(self, tiles[0][2])',
+                   'valid_level(self, tiles[len(tiles) - 1][2])'],
+         ensures=[
+             'abs(result[0] - min(tb_x0(self, tiles[0][0], tiles[0][2]), tb_x0(self, tiles[len(tiles)-1][0], tiles[len(tiles)-1][2]))) <= 2e-12',
+             'abs(result[1] - min(tb_y0(self, tiles[0][1], tiles[0][2]), tb_y0(self, tiles[len(tiles)-1][1], tiles[len(tiles)-1][2]))) <= 2e-12',
+             'abs(result[2] - max(tb_x1(self, tiles[0][0], tiles[0][2]), tb_x1(self, tiles[len(tiles)-1][0], tiles[len(tiles)-1][2]))) <= 2e-12',
+             'abs(result[3] - max(tb_y1(self, tiles[0][1], tiles[0][2]), tb_y1(self, tiles[len(tiles)-1][1], tiles[len(tiles)-1][2]))) <= 2e-12',
+         ],
+         must_fail='result[0] == result[2]')
+
+# ---- _create_tile_list: row-major list, out-of-grid positions are None ------------------------------------
+ghost('ctl_elem', ['xs', 'ys', 'level', 'gs', 'm'], """
+    None if (xs[m % len(xs)] < 0 or ys[m // len(xs)] < 0 or xs[m % len(xs)] >= gs[0] or ys[m // len(xs)] >= gs[1])
+    else (xs[m % len(xs)], ys[m // len(xs)], level)""")
+
+contract(G + '_create_tile_list', props=['C03', 'C01', 'C04', 'C16'],
+         types=dict(xs='list[int]', ys='list[int]', level='int', grid_size='tuple[int,int]'),
+         returns='list[opt[tuple[int,int,int]]]',
+         ensures=['len(result) == len(ys) * len(xs)',
+                  'forall(lambda m: implies(0 <= m < len(result), result[m] == ctl_elem(xs, ys, level, grid_size, m)))'],
+         loops={
+             0: dict(yield_type='opt[tuple[int,int,int]]', inv=[
+                 'len(yielded) == _k * len(xs)',
+                 'forall(lambda m: implies(0 <= m < len(yielded), yielded[m] == ctl_elem(xs, ys, level, grid_size, m)))']),
+             1: dict(yield_type='opt[tuple[int,int,int]]', inv=[
+                 'len(yielded) == _k0 * len(xs) + _k',
+                 'implies(_k < len(xs), (_k0 * len(xs) + _k) % len(xs) == _k and (_k0 * len(xs) + _k) // len(xs) == _k0)',
+                 'forall(lambda m: implies(0 <= m < len(yielded), yielded[m] == ctl_elem(xs, ys, level, grid_size, m)))']),
+         },
+         must_fail='len(result) == 0')
+
+# ---- _tile_iter: the rectangle of tiles x0..x1 / y0..y1, row by row from the top -----------------------------
+# element m of the tile list: column m % w, row m // w counted from the top
+ghost('ti_elem', ['g', 'x0', 'ytop', 'w', 'level', 'm'], """
+    None if (x0 + m % w < 0 or ti_y(g, ytop, m // w) < 0 or x0 + m % w >= g.grid_sizes[level][0]
+             or ti_y(g, ytop, m // w) >= g.grid_sizes[level][1])
+    else (x0 + m % w, ti_y(g, ytop, m // w), level)""")
+# y index of row r (r = 0 is the top row): decreasing y for south-west origin, increasing for north-west origin
+ghost('ti_y', ['g', 'ytop', 'r'], "(ytop + r) if g.flipped_y_axis else (ytop - r)")
+
+contract(G + 'TileGrid._tile_iter', props=['C03', 'C01'],
+         types=dict(x0='int', y0='int', x1='int', y1='int', level='int'),
+         returns='tuple[tuple[real,real,real,real],tuple[int,int],list[opt[tuple[int,int,int]]]]',
+         requires=['grid_wf(self)', 'valid_level(self, level)'],
+         raises={'IndexError': 'x1 < x0 or (y0 < y1 if self.flipped_y_axis else y1 < y0)'},
+         ensures=[
+             'x0 <= x1 and (y1 <= y0 if self.flipped_y_axis else y0 <= y1)',
+             # y1 is the top row in both numbering conventions (callers pass y0 = south edge, y1 = north edge)
+             'result[1][0] == x1 - x0 + 1 and result[1][1] == ((y0 - y1 + 1) if self.flipped_y_axis else (y1 - y0 + 1))',
+             'len(result[2]) == result[1][0] * result[1][1]',
+             'forall(lambda m: implies(0 <= m < len(result[2]), result[2][m] == ti_elem(self, x0, y1, x1 - x0 + 1, level, m)))',
+             'abs(result[0][0] - tb_x0(self, x0, level)) <= 2e-12 and abs(result[0][2] - tb_x1(self, x1, level)) <= 2e-12',
+             'abs(result[0][1] - tb_y0(self, y0, level)) <= 2e-12 and abs(result[0][3] - tb_y1(self, y1, level)) <= 2e-12',
+         ],
+         must_fail='result[1][0] == 1')
+
+contract(G + 'TileGrid.get_affected_level_tiles', props=['C03', 'C01'],
+         types=dict(bbox='tuple[real,real,real,real]', level='int'),
+         returns='tuple[tuple[real,real,real,real],tuple[int,int],list[opt[tuple[int,int,int]]]]',
+         requires=['grid_wf(self)', 'valid_level(self, level)'],
+         raises={'GridError': 'bbox[2] - bbox[0] < self.resolutions[level] or bbox[3] - bbox[1] < self.resolutions[level]'},
+         ensures=[
+             # the listed block covers the rectangle inset by 1/10 pixel ...
+             'result[0][0] <= bbox[0] + self.resolutions[level] / 10 + 2e-12',
+             'result[0][2] > bbox[2] - self.resolutions[level] / 10 - 2e-12',
+             'result[0][1] <= bbox[1] + self.resolutions[level] / 10 + 2e-12',
+             'result[0][3] >= bbox[3] - self.resolutions[level] / 10 - 2e-12',
+             # ... and contains no column/row that merely touches it: the first/last column and row overlap
+             # the inset rectangle (block edge one tile span inside is already inside the rectangle)
+             'result[0][0] + self.resolutions[level] * self.tile_size[0] > bbox[0] + self.resolutions[level] / 10 - 4e-12',
+             'result[0][2] - self.resolutions[level] * self.tile_size[0] <= bbox[2] - self.resolutions[level] / 10 + 4e-12',
+             'result[0][1] + self.resolutions[level] * self.tile_size[1] >= bbox[1] + self.resolutions[level] / 10 - 4e-12',
+             'result[0][3] - self.resolutions[level] * self.tile_size[1] <= bbox[3] - self.resolutions[level] / 10 + 4e-12',
+             # the list is the full block, row by row from the top, out-of-grid positions None
+             'len(result[2]) == result[1][0] * result[1][1] and result[1][0] >= 1 and result[1][1] >= 1',
+             """forall(lambda m: implies(0 <= m < len(result[2]), result[2][m] == ti_elem(self,
+                           col_of(self, bbox[0] + self.resolutions[level] / 10, level),
+                           row_of(self, bbox[3] - self.resolutions[level] / 10, level), result[1][0], level, m)))""",
+             """abs(result[0][0] - tb_x0(self, col_of(self, bbox[0] + self.resolutions[level] / 10, level), level)) <= 2e-12
+                and abs(result[0][3] - tb_y1(self, row_of(self, bbox[3] - self.resolutions[level] / 10, level), level)) <= 2e-12""",
+         ],
+         must_fail='result[1][0] == 1')
+
+contract(G + 'get_resolution', props=['C03'],
+         types=dict(bbox='tuple[real,real,real,real]', size='tuple[int,int]'), returns='real',
+         requires=['size[0] > 0 and size[1] > 0'],
+         ensures=['result == min(abs(bbox[0] - bbox[2]) / size[0], abs(bbox[1] - bbox[3]) / size[1])'],
+         must_fail='result == 0')
+
+contract(G + 'bbox_intersects', props=['C03', 'C17'],
+         types=dict(one='tuple[real,real,real,real]', two='tuple[real,real,real,real]'), returns='bool',
+         ensures=['result == (one[0] < two[2] and one[2] > two[0] and one[1] < two[3] and one[3] > two[1])'],
+         must_fail='result')
+
+contract(G + 'bbox_contains', props=['C03', 'C17'],
+         types=dict(one='tuple[real,real,real,real]', two='tuple[real,real,real,real]'), returns='bool',
+         ensures=["""result == (two[0] - one[0] >= -abs(one[2] - one[0]) / 10e12 and two[1] - one[1] >= -abs(one[3] - one[1]) / 10e12
+                               and two[2] - one[2] <= abs(one[2] - one[0]) / 10e12 and two[3] - one[3] <= abs(one[3] - one[1]) / 10e12)""",
+                  # exact containment implies the answer True; True implies containment up to the declared tolerance
+                  'implies(one[0] <= two[0] and one[1] <= two[1] and two[2] <= one[2] and two[3] <= one[3], result)'],
+         must_fail='result')
